@@ -13,7 +13,7 @@ from ..persist import IDENTITY, PersistEngine
 from ..report import RuleResult
 from ..tables import WriterTables
 from ..textile import FormatDoc
-from ._c03_engine import RobustPersistEngine, gateway_args, has_gateway_kw, route_values
+from ._c03_engine import RobustPersistEngine, RobustWriterTables, gateway_args, has_gateway_kw, route_values
 
 
 def families(ctx):
@@ -34,7 +34,7 @@ def families(ctx):
 def engine(ctx) -> PersistEngine:
     if "persist_engine" not in ctx.cache:
         depth = 4 if ctx.tier == "quick" else 12
-        ctx.cache["persist_engine"] = RobustPersistEngine(ctx.p, WriterTables(ctx.p), max_depth=depth)
+        ctx.cache["persist_engine"] = RobustPersistEngine(ctx.p, RobustWriterTables(ctx.p), max_depth=depth)
     return ctx.cache["persist_engine"]
 
 
@@ -1504,15 +1504,19 @@ def _reset_scalar_attributes(ctx, res, t):
         return isinstance(e, ast.Call) and isinstance(e.func, ast.Name) and e.func.id == "getattr" and len(e.args) >= 2 \
             and unparse(expanded(e.args[0], node, defs)) == ent_p and not isinstance(e.args[1], ast.Constant)
 
+    def holds_read(e):
+        """the value read from the entity, possibly handed through a conversion on the way: as_str_if_uuid(getattr(entity, attr, None))"""
+        return any(reads_entity(c) for c in ast.walk(e))
+
     loops = [x for x in ast.walk(node) if isinstance(x, ast.For) and any(reads_entity(c) for c in ast.walk(x))]
     if len(loops) != 1:
         raise AnalysisError(f"H5Writer.{t.fallback}: loop over the attribute map not recognised")
     loop = loops[0]
     keyvars = [x.id for x in ast.walk(loop.target) if isinstance(x, ast.Name)]
-    values = sorted(bound_from(loop, reads_entity))
+    values = sorted(bound_from(loop, holds_read))
     starts = []
     for n in g.nodes:
-        if n.kind == "stmt" and isinstance(n.ast, (ast.Assign, ast.AnnAssign)) and n.ast.value is not None and reads_entity(n.ast.value):
+        if n.kind == "stmt" and isinstance(n.ast, (ast.Assign, ast.AnnAssign)) and n.ast.value is not None and holds_read(n.ast.value):
             starts += [m for m, lab in n.succ if lab != "exc"]
     head = [n for n in g.nodes if n.kind == "fornext" and n.stmt is loop]
     if not values or not starts or not head or not keyvars:
